@@ -41,7 +41,8 @@ def run(chk):
     chk.validate('estimators', 'Trace_MM', 'Trace_MM.cfg', mm, driver='em', jobs=14)
     if al:
         chk.validate('inline-alignment', 'Trace_Align', 'Trace_Align.cfg', al, driver='em', jobs=4)
-    good = [r for r in mm if r['kind'] == 'mstep' and r['exc'] == '' and r['comp'] == 'cacg' and r['full'][-2] >= 2][0]
+    goods = [r for r in mm if r['kind'] == 'mstep' and r['exc'] == '' and r['comp'] == 'cacg' and r['full'][-2] >= 2]
+    good = goods[0]
 
     def corrupt(r):
         for f in r['fields']:
@@ -50,7 +51,7 @@ def run(chk):
                 d[0], d[-1] = d[-1], d[0]
                 d[0] = [d[0][0], d[0][1] - 3]
         return r
-    core.binding_demo(chk, 'bind-tyler', 'Trace_MM', 'Trace_MM.cfg', good, corrupt, 'cacg_tyler_step')
+    core.binding_demo(chk, 'bind-tyler', 'Trace_MM', 'Trace_MM.cfg', good, corrupt, 'cacg_tyler_step', candidates=goods[1:])
     chk.assumptions = ['observations enter on the unit sphere (normalised by the driver; C04 covers the normalisation)',
                        'Watson concentration: mpmath kernel, tolerance 4096*2^-19 for the spline inverse',
                        'Bingham eigenvalue equation and the pooled Gaussian / vMF stream of the integration models are not '
